@@ -27,17 +27,17 @@ type Thread struct {
 }
 
 type Sched struct {
-	run     *Run
-	threads []*Thread
-	cur     int
-	mainCh  chan struct{}
-	Points  int
-	MaxPts  int
+	run      *Run
+	threads  []*Thread
+	cur      int
+	mainCh   chan struct{}
+	Points   int
+	MaxPts   int
 	Switches int
 	Livelock bool
 	Deadlock bool
-	Trace   []int // thread id chosen at each point
-	Race    interface{} // optional race detector attached by the harness
+	Trace    []int       // thread id chosen at each point
+	Race     interface{} // optional race detector attached by the harness
 }
 
 func NewSched(run *Run) *Sched {
